@@ -16,6 +16,8 @@ def hunks_to_edits(patch):
             if cur_file.startswith('b/'):
                 cur_file = cur_file[2:]
         if l.startswith('@@'):
+            mm = re.match(r'@@ -(\d+)', l)
+            start_line = int(mm.group(1)) if mm else 1
             old, new = [], []
             i += 1
             while i < len(lines) and not lines[i].startswith('@@') and not lines[i].startswith('diff --git'):
@@ -33,10 +35,32 @@ def hunks_to_edits(patch):
             if not old and cur_file and not os.path.exists(os.path.join('/repo', cur_file)):
                 edits.append({'file': cur_file, 'old': '', 'new': '\n'.join(new) + '\n', 'create': True})
             else:
-                edits.append({'file': cur_file, 'old': '\n'.join(old) + '\n', 'new': '\n'.join(new) + '\n'})
+                edits.append({'file': cur_file, 'old': '\n'.join(old) + '\n', 'new': '\n'.join(new) + '\n', '_line': start_line})
             continue
         i += 1
     return edits
+
+def disambiguate(edits):
+    """A hunk whose old text occurs more than once is extended upwards, line by line, from the
+    occurrence the hunk header points at, until it is unique in the file."""
+    for e in edits:
+        if e.get('create') or not os.path.exists(os.path.join('/repo', e['file'])):
+            continue
+        src = open(os.path.join('/repo', e['file'])).read()
+        if src.count(e['old']) <= 1:
+            continue
+        lines = src.split('\n')
+        # offset of the intended occurrence: the hunk starts at _line (1-based)
+        want = sum(len(x) + 1 for x in lines[:e.get('_line', 1) - 1])
+        occ = [m.start() for m in re.finditer(re.escape(e['old']), src)]
+        pos = min(occ, key=lambda o: abs(o - want))
+        start = pos
+        while src.count(src[start:pos + len(e['old'])]) > 1 and start > 0:
+            start = src.rfind('\n', 0, start - 1) + 1
+        prefix = src[start:pos]
+        e['old'] = prefix + e['old']
+        e['new'] = prefix + e['new']
+
 
 def main():
     src, mid, prop = sys.argv[1], sys.argv[2], sys.argv[3]
@@ -53,8 +77,12 @@ def main():
     json.dump(meta, open(os.path.join(dst, 'meta.json'), 'w'), indent=1)
     patch = open(os.path.join(src, 'patch.diff')).read()
     edits = hunks_to_edits(patch)
+    disambiguate(edits)
     # verify anchors
     for e in edits:
+        e.pop('_line', None)
+        if e.get('create'):
+            continue
         s = open(os.path.join('/repo', e['file'])).read()
         assert s.count(e['old']) == 1, (e['file'], s.count(e['old']))
     cat_path = '/verif/sa/selftest/agent_mutants.json'
